@@ -49,7 +49,7 @@ for rec, fields in KEYS.items():
   __CPROVER_assert(!eq || ha == hb, "equal keys hash equally (otherwise equal values are stored twice)");
 ''' % {'r': rec}
     h += '  if (eq) { CANARY("equal pair reachable"); }\n'
-    UNITS.append(BmcUnit('bt.eqhash.' + rec, fns, h, 'bt.h', unwind=1, bound_text=None, props=['C11'],
+    UNITS.append(BmcUnit('bt.eqhash.' + rec, fns, h, 'bt.h', unwind=1, bound_text=None, props=['C11', 'C01'],
                          stubs=['hash_value__p_\\w+', 'opt_\\w+', 'cstring__\\w+'], timeout=600,
                          note='loop-free: complete for all pairs of values. CRC32 uninterpreted (A9).'))
 
@@ -167,7 +167,7 @@ for rec, mg in MANGLED.items():
     prek = '_ZNK4CDNS10BlockTableINS_%sES1_E' % mg
     setup = '  static struct BlockTable_%s obj;\n  __CPROVER_assume(obj.items_.n < (1UL << 31) && obj.indexes_.n <= obj.items_.n && (!g_present || g_pidx < obj.items_.n));\n  g_finds = 0; g_stores = 0;\n' % rec
     gh = [('unsigned long', 'N0', '$this->items_.n'), ('unsigned long', 'M0', '$this->indexes_.n'), ('struct ' + rec, 'W0', '$this->items_.wv')]
-    common = dict(prelude='btr.h', opaque=BT_OPQ, stubs=BT_STUBS, auto_inline=BT_AUTO, props=['C11', 'C03'], timeout=600)
+    common = dict(prelude='btr.h', opaque=BT_OPQ, stubs=BT_STUBS, auto_inline=BT_AUTO, props=['C11', 'C03', 'C01'], timeout=600)
     UNITS.append(Unit('btr.%s.index' % rec, ('@' + prek + 'ixEj', None), contract=c_index(rec), setup='  static struct BlockTable_%s obj; unsigned int a_pos;\n' % rec,
                       args=['&obj', 'a_pos'], post='  if (g_exc != 0) { CANARY("out-of-range index reachable"); }',
                       note='operator[]: returns the element iff the index is below size(), otherwise raises; never touches storage out of bounds', **common))
